@@ -798,6 +798,9 @@ package profile
 //@     invariant later_ids: forall j int :: $i <= j && j < len(p.Location) ==> !has(focusOrIgnore, p.Location[j].ID) && !has(hidden, p.Location[j].ID)
 //@   loop 2
 //@     invariant 0 <= $i && $i <= len(p.Sample) && p != nil && focusOrIgnore != nil && hidden != nil
+//@     step kept_is_focused: len(s) != len(iter(s)) ==> len(s) == len(iter(s)) + 1 && s[len(s) - 1] == sample && callres("focusedAndNotIgnored", 0) && len(sample.Location) >= 1 || len(s) != len(iter(s)) && atiter(2, len(sample.Location)) == 0 && len(s) == len(iter(s)) + 1 && s[len(s) - 1] == sample && callres("focusedAndNotIgnored", 0)
+//@     step unfocused_dropped: !callres("focusedAndNotIgnored", 0) ==> len(s) == len(iter(s)) && same_elems(sample.Location, atiter(2, sample.Location))
+//@     step no_hidden_left: len(hidden) > 0 && len(s) != len(iter(s)) ==> forall q int :: 0 <= q && q < len(sample.Location) ==> !(has(hidden, sample.Location[q].ID) && hidden[sample.Location[q].ID])
 //@     invariant forall k int :: 0 <= k && k < len(p.Sample) ==> p.Sample[k] != nil
 //@     invariant forall k int, q int :: 0 <= k && k < len(p.Sample) && 0 <= q && q < len(p.Sample[k].Location) ==> p.Sample[k].Location[q] != nil
 //@   loop 3
@@ -806,6 +809,7 @@ package profile
 //@     invariant forall q int :: 0 <= q && q < len(sample.Location) ==> sample.Location[q] != nil
 
 // ---- C01 (strengthened after seeded change utf8-sanitise-string-table): strings are written byte for byte ----
+//@     invariant nohidden: forall q int :: 0 <= q && q < len(locs) ==> !(has(hidden, locs[q].ID) && hidden[locs[q].ID])
 //@ func encodeString arith bv
 //@   requires b != nil
 //@   ensures length: len(b.data) == old(len(b.data)) + vlen(keyof(tag, 2)) + vlen(uint64(len(x))) + len(x)
